@@ -733,7 +733,7 @@ def finish(ctx):
   ctx.need("stab:judged-non-monic", 300)
   for p in range(1, 9):
     ctx.need("rt:order-%d" % p, 30 if q else 500)
-    ctx.need("stab-order:%d" % p, 20 if q else 300)
+    ctx.need("stab-order:%d" % p, 10 if q else 300)
   for prof in ("tame", "out", "wild"):
     ctx.need("rt:profile-" + prof, 100)
   ctx.need("rt:has-|k|>1", 100)
